@@ -104,6 +104,26 @@ func Run(c *common.Ctx) error {
 		cf.Add(h.CoqCase(), map[string]any{"kind": "history", "page_size": cfg.PageSize, "scripted": "rolled-back WAL transactions", "steps": h.Steps})
 		h.Close()
 	}
+	// fixed history: a database that grows across pages SQLite never writes, with restarts in between
+	for _, ps := range []int{512, 4096} {
+		cfg := hist.Config{PageSize: ps, AllowWAL: true}
+		h, err := hist.New(c, c.Rng.Fork(), cfg)
+		if err != nil {
+			if h != nil {
+				h.Close()
+			}
+			return fmt.Errorf("history setup: %w", err)
+		}
+		for _, st := range hist.UnwrittenGrowthSteps() {
+			if ob := h.Exec(st); ob.Panic != "" || len(ob.Exits) > 0 {
+				break
+			}
+		}
+		h.CheckCrash(c, "C04")
+		h.CheckChecksum(c)
+		cf.Add(h.CoqCase(), map[string]any{"kind": "history", "page_size": cfg.PageSize, "scripted": "growth across unwritten pages", "steps": h.Steps})
+		h.Close()
+	}
 	if err := importCases(c); err != nil {
 		return err
 	}
